@@ -22,7 +22,9 @@ Shapes == [n : Ns, text : Texts, fam : Fams, unk : Unks, mi : BOOLEAN, fp : BOOL
 Pad4(x) == x + ((4 - (x % 4)) % 4)
 \* wire size of a message of shape s: header, USERNAME, XOR-MAPPED-ADDRESS, ERROR-CODE(4+5), UNKNOWN-ATTRIBUTES,
 \* n SOFTWARE attributes of 6 bytes, MESSAGE-INTEGRITY, FINGERPRINT
-Size(s) == 20 + (4 + Pad4(s.text)) + (4 + 4 + s.fam) + (4 + Pad4(9)) + (4 + Pad4(2 * s.unk)) + s.n * (4 + 8)
+\* (the largest text shape also carries the longest ERROR-CODE reason phrase, 763 bytes)
+ReasonLen(s) == IF s.text = 513 THEN 763 ELSE 5
+Size(s) == 20 + (4 + Pad4(s.text)) + (4 + 4 + s.fam) + (4 + Pad4(4 + ReasonLen(s))) + (4 + Pad4(2 * s.unk)) + s.n * (4 + 8)
            + (IF s.mi THEN 24 ELSE 0) + (IF s.fp THEN 8 ELSE 0)
 NAttrs(s) == 4 + s.n + (IF s.mi THEN 1 ELSE 0) + (IF s.fp THEN 1 ELSE 0)
 
